@@ -258,7 +258,8 @@ func evalCase(cs Case) (class, msg string) {
 	secret := "SECRET-" + cs.Header + "-VALUE"
 	if cs.Header != "" {
 		// two values under the same name (two header lines in the dump): both are credentials
-		rq.Header[cs.Header] = []string{secret, "second-" + secret}
+		// (the third has the shape of real credentials: colons and separators inside the value)
+		rq.Header[cs.Header] = []string{secret, "second-" + secret, "Basic user:third-" + secret + ": k=v; x:y"}
 	}
 	rw := fx.NewRW()
 	var under http.ResponseWriter = rw
